@@ -1077,6 +1077,9 @@ func (i *interpreter) strLenOr(v value) value {
 	case SymStr:
 		return len(s)
 	}
+	if r, ok := v.(*Rope); ok {
+		return i.ropeLen(r)
+	}
 	panic(unsupported{"length of a formatted message with symbolic parts"})
 }
 
